@@ -73,24 +73,68 @@ def check(ctx, tier, seed, t0):
                 size_fail.append({'key': c['key'], 'cmd': c['cmd'], 'impl': o, 'expected': 'V %x' % c['expect'],
                                   'what': '%s returns header+%s, expected header+%d' % (c['key']['accessor'], o, c['expect'])})
     failures += size_fail
+    # the deprecated entry points (wrappers and initialisers) on exact-extent blocks as well: they are header operations too
+    from props import c11 as C11
+    legacy_cmds = []
+    try:
+        apis, _aliases = C11.load_legacy(ctx)
+    except Exception:
+        apis = []
+    ev = F.enum_values(ctx)
+    byname = {f.name: f for f in fmts}
+    for a in apis:
+        f = byname.get(a['fmt'])
+        if f is None:
+            continue
+        vw = 32 if a['set'] == 'avtp_pdu_set' else 64
+        for fld in f.fields:
+            idx = ev.get(fld['name'])
+            if idx is None:
+                continue
+            for b in [bytes(f.hdr), bytes([0xff]) * f.hdr, rng.bytes(f.hdr)][:(2 if tier == 'quick' else 3)]:
+                hb = F.hexbuf(b)
+                legacy_cmds.append(({'format': f.name, 'field': fld['name'], 'accessor': a['get']}, 'L %s %s %x 0 %x' % (a['get'], hb, idx, rng.bits(32))))
+                legacy_cmds.append(({'format': f.name, 'field': fld['name'], 'accessor': a['set']}, 'L %s %s %x %x x' % (a['set'], hb, idx, rng.bits(vw))))
+        if a['init']:
+            for b in [bytes(f.hdr), bytes([0xa5]) * f.hdr, rng.bytes(f.hdr)]:
+                for x in ([0, 1, 2, 3, 0x7f, 0xff] if a['init_field'] else [0]):
+                    legacy_cmds.append(({'format': f.name, 'accessor': a['init']}, 'L %s %s %x 0 x' % (a['init'], F.hexbuf(b), x)))
+    n_legacy = len(legacy_cmds)
+    legacy_unmodelled = []
+    if legacy_cmds:
+        impl_l = vlib.run_harness(ctx, [c for _, c in legacy_cmds])
+        model_l = vlib.run_oracle(ctx, [c for _, c in legacy_cmds])
+        for (key, c), il, ml in zip(legacy_cmds, impl_l, model_l):
+            if il != ml and not il.startswith('SKIPPED') and not il.startswith('CRASH') and not ml.startswith('R '):
+                legacy_unmodelled.append((c, il, ml))       # the wrapper is no longer recognised by the translator: not a witness by itself
+            elif il != ml and not il.startswith('SKIPPED'):
+                failures.append({'key': key, 'cmd': c, 'impl': il, 'expected': ml, 'kind': 'legacy',
+                                 'what': '%s on a block of exactly the header length: implementation %s, model (header-only access) %s' % (key['accessor'], il[:90], ml[:90])})
+    if legacy_unmodelled and not failures:
+        proof['broken'].append({'file': 'correspondence C03 (deprecated entry points on exact-extent blocks)', 'line': 0,
+                                'error': '%d calls have no model result, e.g. %s -> impl %s, model %s' % (len(legacy_unmodelled), legacy_unmodelled[0][0][:160], legacy_unmodelled[0][1][:60], legacy_unmodelled[0][2][:40])})
     if tie and not failures:
         proof['broken'].append({'file': 'correspondence C03', 'line': 0,
                                 'error': '%d cases differ, e.g. %s -> impl %s, model %s' % (len(tie), tie[0]['cmd'][:200], tie[0]['impl'][:80], tie[0]['model'][:80])})
-    total = len(cases) + n_size * 3 + len(payload_cases)
-    streams = stream_summary(total, len(set(c['cmd'] for c in cases)) + n_size * 3 + len(payload_cases),
+    total = len(cases) + n_size * 3 + len(payload_cases) + n_legacy
+    streams = stream_summary(total, len(set(c['cmd'] for c in cases)) + n_size * 3 + len(payload_cases) + n_legacy,
         'every getter, setter and initialiser of all 23 formats called on a posix_memalign block of exactly the wire header length (Spec.v), '
         'under AddressSanitizer (redzones directly before and after the block) and UBSan; sizeof / offsetof(payload) / header-length macro of '
-        'every header type as measured by gcc-compiled probes against the wire header size; payload accessors against header length. '
+        'every header type as measured by gcc-compiled probes against the wire header size; payload accessors against header length; the deprecated get / set / init '
+        'entry points of the five legacy formats on exact-extent blocks against the model of the wrappers. '
         'non-trivial = distinct command / distinct measured fact',
         [{'cmd': c['cmd'][:120], 'impl': c['impl'][:70], 'model': c['model'][:70]} for c in cases[::max(1, len(cases) // 5)]] +
         [{'probe': 'sizeof(%s)' % f.type, 'value': (types.get((f.src, f.type)) or {}).get('sizeof'), 'wire': f.hdr} for f in fmts[:2]],
         len(tie), len(failures),
-        {'input_distribution': {'exact_extent_calls': len(cases), 'size_facts': n_size * 3, 'payload_accessors': len(payload_cases)}})
+        {'input_distribution': {'exact_extent_calls': len(cases), 'size_facts': n_size * 3, 'payload_accessors': len(payload_cases), 'deprecated_entry_points_exact_extent': n_legacy}})
     return vlib.finish(PROP, tier, seed, t0, proof, streams, failures, ASSUME, TRUSTED)
 
 def replay(ctx, path):
     def rerun(ctx, f):
         if f['cmd'].startswith('probe'):
             return {'impl': 're-run ./check C03 (probe facts are re-measured on every run)', 'expected': f['expected'], 'fails': True}
+        if f.get('kind') == 'legacy':
+            il = vlib.run_harness(ctx, [f['cmd']])[0]; ml = vlib.run_oracle(ctx, [f['cmd']])[0]
+            return {'impl': il, 'expected': ml, 'fails': il != ml}
         return F.rerun_case(ctx, f)
     return replay_generic(ctx, path, rerun)
